@@ -91,7 +91,13 @@ func genC08(rng *rand.Rand, tier string) *sim.Plan {
 			// how the connection ends
 			switch k := rng.IntN(12); {
 			case k < 2:
-				ph2.Ops = append(ph2.Ops, sim.Op{K: "disconnect", C: i})
+				dop := sim.Op{K: "disconnect", C: i}
+				if v5 && e == 0 && chance(rng, 0.4) {
+					// protocol error (MQTT 5 3.14.2.2.2): a non-zero Session Expiry Interval in DISCONNECT when
+					// CONNECT had none: not a normal disconnection, the will must be published
+					dop.DiscExpS = sim.U32(uint32(pick(rng, []int{1, 4, 30})))
+				}
+				ph2.Ops = append(ph2.Ops, dop)
 			case k < 3 && v5:
 				dop := sim.Op{K: "disconnect", C: i, Code: 0x04}
 				if e != 0 && chance(rng, 0.4) {
@@ -201,6 +207,7 @@ func oracleC08(p *sim.Plan, out *sim.Outcome) []sim.Violation {
 		connackT := map[int]time.Duration{}
 		discCode := map[int]int{}    // conn -> DISCONNECT reason code sent (-1 none)
 		discExp := map[int]*uint32{} // conn -> expiry carried by DISCONNECT
+		malformedDisc := map[int]bool{}
 		for _, r := range h.Recs {
 			if r.C == vi {
 				switch {
@@ -245,7 +252,11 @@ func oracleC08(p *sim.Plan, out *sim.Outcome) []sim.Violation {
 					}
 				}
 				if x := discExp[e.conn]; x != nil {
-					E = int(*x)
+					if E == 0 && *x != 0 {
+						malformedDisc[e.conn] = true // protocol error: neither the expiry nor the will suppression applies
+					} else {
+						E = int(*x)
+					}
 				}
 			} else if !o.Op.Clean {
 				E = cfgExp
@@ -259,7 +270,7 @@ func oracleC08(p *sim.Plan, out *sim.Outcome) []sim.Violation {
 				m = E
 			}
 			suppressed := false
-			if dc := discCode[e.conn]; dc == 1 { // reason code 0x00 (or a v3 DISCONNECT)
+			if dc := discCode[e.conn]; dc == 1 && !malformedDisc[e.conn] { // reason code 0x00 (or a v3 DISCONNECT)
 				suppressed = true
 			}
 			// was the connection ended by a DISCONNECT whose delivery raced with the close? The scripted
